@@ -40,6 +40,7 @@ def canon(row, n, mirrored):
             tuple((p.reference.siteId, qn(p.query.siteId)) for p in row.alignedPairs), row.cigarString)
 
 
+@core.guarded(lambda cfg, maxd, rpos, qpos, peaks, *a: dict(config=list(cfg), maxDistance=maxd, reference=rpos, query=qpos, peaks=peaks))
 def check_case(cfg, maxd, rpos, qpos, peaks, acc, aligner=None):
     al = aligner or make_aligner(maxd, *cfg)
     ref = OpticalMap(1, rpos[-1] + STEP, rpos)
